@@ -28,30 +28,26 @@ def setDeposit (s : State) (a : Addr) (c : Coins) : State := { s with deposits :
 
 /-- `SendCoinsFromAccountToDeposit` with one coin. -/
 def depositAdd (s : State) (frm to : Addr) (c : Coin) : M State := do
-  let s ← sendCoins s frm depositAddr c
-  let cur := (getDeposit s to).getD []
-  let cur := cur.add c
-  if cur.isAnyNegative then reject "insufficient funds"
-  let s := setDeposit s to cur
-  pure (emit s (ev "sentinel.deposit.v1.EventAdd" [("address", addrTxt .acc to), ("coins", c.sdkString)]))
+  let s1 ← sendCoins s frm depositAddr c
+  require (!(((getDeposit s1 to).getD []).add c).isAnyNegative) "insufficient funds"
+  pure (emit (setDeposit s1 to (((getDeposit s1 to).getD []).add c))
+    (ev "sentinel.deposit.v1.EventAdd" [("address", addrTxt .acc to), ("coins", c.sdkString)]))
 
 /-- `SendCoinsFromDepositToAccount` with one coin. -/
 def depositToAccount (s : State) (frm to : Addr) (c : Coin) : M State := do
-  let some cur := getDeposit s frm | reject "deposit not found"
-  let cur := cur.sub c
-  if cur.isAnyNegative then reject "insufficient deposit"
-  let s ← sendModuleToAccount s depositAddr to c
-  let s := setDeposit s frm cur
-  pure (emit s (ev "sentinel.deposit.v1.EventSubtract" [("address", addrTxt .acc frm), ("coins", c.sdkString)]))
+  let cur ← orReject (getDeposit s frm) "deposit not found"
+  require (!(cur.sub c).isAnyNegative) "insufficient deposit"
+  let s1 ← sendModuleToAccount s depositAddr to c
+  pure (emit (setDeposit s1 frm (cur.sub c))
+    (ev "sentinel.deposit.v1.EventSubtract" [("address", addrTxt .acc frm), ("coins", c.sdkString)]))
 
 /-- `SendCoinsFromDepositToModule` with one coin (the only target is the fee collector). -/
 def depositToModule (s : State) (frm module : Addr) (c : Coin) : M State := do
-  let some cur := getDeposit s frm | reject "deposit not found"
-  let cur := cur.sub c
-  if cur.isAnyNegative then reject "insufficient deposit"
-  let s ← sendCoins s depositAddr module c
-  let s := setDeposit s frm cur
-  pure (emit s (ev "sentinel.deposit.v1.EventSubtract" [("address", addrTxt .acc frm), ("coins", c.sdkString)]))
+  let cur ← orReject (getDeposit s frm) "deposit not found"
+  require (!(cur.sub c).isAnyNegative) "insufficient deposit"
+  let s1 ← sendCoins s depositAddr module c
+  pure (emit (setDeposit s1 frm (cur.sub c))
+    (ev "sentinel.deposit.v1.EventSubtract" [("address", addrTxt .acc frm), ("coins", c.sdkString)]))
 
 /-! ### subscription/keeper/alias.go: zero coins short-circuit -/
 
